@@ -125,6 +125,9 @@ func (c *Ctx) finishMaybe(start time.Time, onlyKey, cmdline string, noEvidence b
 }
 
 func installAccessorResolver(p *Program) {
+	for _, pk := range p.All {
+		buildAliasTable(pk.TypesInfo, pk.Syntax)
+	}
 	evals := map[*types.Info]*strEval{}
 	stringResolver = func(info *types.Info, call *ast.CallExpr) (string, bool) {
 		fn := calleeOf(info, call)
